@@ -360,6 +360,21 @@ func (x *c12) step() {
 			r.Abstract("clusterdeployment|" + string(status))
 		}})
 	}
+	if len(x.out) > 0 {
+		st = append(st, stim{2, func() {
+			// a late status of ANOTHER lease of the same deployment group (the previous order sequence,
+			// whose monitor still reports): it concerns none of the outstanding reservations
+			m := x.out[r.Choose(len(x.out), "stale.which")]
+			oid := m.order
+			oid.OSeq += uint32(1 + r.Choose(2, "stale.oseq"))
+			g := manifest.Group{Name: m.group.Name}
+			x.publishEv(event.ClusterDeployment{LeaseID: mtypes.MakeLeaseID(mtypes.MakeBidID(oid, testAddr(1))), Group: &g, Status: event.ClusterDeploymentDeployed})
+			r.Ops++
+			r.Count("probe:status-event-of-another-order-sequence")
+			r.Logf("step %d: ClusterDeployment (deployed) for order %d/%d/%d - not the order of any reservation", x.s.Step, oid.DSeq, oid.GSeq, oid.OSeq)
+			r.Abstract("clusterdeployment|stale")
+		}})
+	}
 	st = append(st, stim{6, func() {
 		r.Ops++
 		x.pendingStatus = true
